@@ -21,7 +21,7 @@ class CycleError(Exception):
 
 class Ref:
     def __init__(self, spec: ModelSpec, dom, P, Y, W, EP=None, delayed=None, ext_inputs=None, edge_mask=(),
-                 zero_default=(), weight_from=None, past=None):
+                 zero_default=(), weight_from=None, past=None, innode_delayed=None):
         """P(node, op, var) -> value of a constant / input default
         Y(node, op, var) -> current value of a state variable
         W(i) -> weight of edge i (None weight => 1)
@@ -35,6 +35,7 @@ class Ref:
         self.edge_mask = set(edge_mask)
         self.zero_default = set(zero_default)
         self.weight_from = dict(weight_from or {})
+        self.innode_delayed = dict(innode_delayed or {})   # (node, op, var) -> index of a delayed edge leaving it
         self.past = past        # past(node, op) -> fn(var, delay_value): value of a delayed state variable
         self._stack = set()
         self._memo = {}
@@ -75,7 +76,12 @@ class Ref:
                     continue
                 o2 = self.spec.ops[o2name]
                 if o2.output == var:
-                    terms.append(self.value(node, o2name, var))
+                    if (node, o2name, var) in self.innode_delayed and self.delayed is not None:
+                        # defect model: the operator of the same node reads the delayed copy made for an edge
+                        i = self.innode_delayed[(node, o2name, var)]
+                        terms.append(self.delayed(i, self.spec.edges[i], lambda n=node, o=o2name, v=var: self.value(n, o, v)))
+                    else:
+                        terms.append(self.value(node, o2name, var))
             for i, e in enumerate(self.spec.edges):
                 tn, to, tv = e.tgt.rsplit('/', 2)
                 if (tn, to, tv) == (node, op, var) and i not in self.edge_mask:
